@@ -724,7 +724,9 @@ where
 }
 
 fn select_from(amount: u64, select_all: bool, outputs: Vec<OutputData>) -> Option<Vec<OutputData>> {
-	let total = outputs.iter().fold(0, |acc, x| acc + x.value);
+	let total = outputs
+		.iter()
+		.fold(0u64, |acc, x| acc.saturating_add(x.value));
 	if total >= amount {
 		if select_all {
 			Some(outputs.to_vec())
